@@ -13,3 +13,7 @@ func VerifDialer() func(network, addr string) (net.Conn, error) { return nil }
 
 // VerifListener returns a replacement for the TCP listener factory, or nil.
 func VerifListener() func(network, addr string) (net.Listener, error) { return nil }
+
+// VerifUniqID returns the start value for a node's unique id counter, or 0
+// to keep the default (wall clock based) start value.
+func VerifUniqID() uint64 { return 0 }
